@@ -102,6 +102,13 @@ class Batch:
         bad = [u for u in und if not any(m["h"] == u["h"] and m["l"] < u["l"] for m in mm)]
         if bad:
             raise lib.Inconclusive("%s: step outside the specification's domain without a preceding mismatch: %s" % (self.name, bad[:2]))
+        # what follows such a step in its history is not judged (the histories were generated for
+        # the specification's state, e.g. GRANT role is not re-issued with a different ADMIN OPTION)
+        first = {}
+        for u in und:
+            first[u["h"]] = min(first.get(u["h"], u["l"]), u["l"])
+        self.after_undefined = sum(1 for m in mm if m["h"] in first and m["l"] >= first[m["h"]])
+        mm = [m for m in mm if not (m["h"] in first and m["l"] >= first[m["h"]])]
         self.tlc_wall = r.wall
         return mm, st, und
 
